@@ -478,6 +478,15 @@ class Layouts:
                 if n == 1:
                     return [Byte(recv)]
                 return [Field(n, recv, order)]
+            if m in ("ljust", "rjust") and args and is_const(args[0]) and isinstance(args[0][1], int):
+                fill = args[1][1] if len(args) > 1 and is_const(args[1]) else b" "
+                inner = self.layout(recv, depth)
+                tl_ = total(inner)
+                if isinstance(fill, (bytes, bytearray)) and len(fill) == 1 and tl_.is_const():
+                    padn = max(0, args[0][1] - int(tl_.c))
+                    padseg = [Zeros(padn)] if fill == b"\x00" else [Const(bytes(fill) * padn)]
+                    return (inner + padseg) if m == "ljust" else (padseg + inner)
+                self._unknown(t, "(ljust/rjust of a variable-length value)")
             if m == "join" and is_const(recv) and recv[1] == b"" and len(args) == 1:
                 a = strip(args[0])
                 if a[0] in ("tuple", "list"):
